@@ -1125,3 +1125,10 @@ RFI = "core_codemods/remove_future_imports.py"
 add("C08", "future-imports-kept-from-allow-list", RFI,
     [("                    if name.name.value not in DEPRECATED_NAMES", "                    if name.name.value in CURRENT_NAMES")],
     "fire", "R-FUTURE-DROPS-ONLY-DEPRECATED", "leave_ImportFrom")
+DGI = "core_codemods/disable_graphql_introspection.py"
+add("C01", "existing-rules-expression-put-under-a-star", DGI,
+    [("                    case cst.List():\n                        # does it have any introspection rule", "                    case cst.BooleanOperation() | cst.IfExp():\n                        nodes_to_change[resolved] = cst.List(elements=[cst.StarredElement(value=resolved), cst.Element(value=cst.Name(\"NoSchemaIntrospectionCustomRule\"))])\n                    case cst.List():\n                        # does it have any introspection rule")],
+    "fire", "R-STARRED-OPERAND", "StarredElement")
+add("C01", "benign-name-put-under-a-star", DGI,
+    [("                    case cst.List():\n                        # does it have any introspection rule", "                    case cst.Name() | cst.Call():\n                        nodes_to_change[resolved] = cst.List(elements=[cst.StarredElement(value=resolved), cst.Element(value=cst.Name(\"NoSchemaIntrospectionCustomRule\"))])\n                    case cst.List():\n                        # does it have any introspection rule")],
+    "silent")
